@@ -40,6 +40,8 @@ def run(ctx, chk):
     chk.rule("C02.R7", "no count 0..255 makes a shift/rotate helper abort", floor=14)
     chk.rule("C02.R8", "shl and sal are the same operation", floor=2)
     chk.rule("C02.R9", "count>=1: flags outside the Intel write-set unchanged, written flags assigned on every path", floor=100)
+    chk.rule("C02.R10", "byte and word helper of a mnemonic have the same branch conditions, flag calls and result expression (no dropped operand, no single differing operator/constant)", floor=11)
+    sibling_rule(ctx, chk)
     chk.rule("C02.R10", "byte and word tables bind the same mnemonics", floor=2)
 
     tabs = {nt: fn_table(ctx, nt) for nt in ("byte_binary_logical", "word_binary_logical", "byte_shift_rotate", "word_shift_rotate")}
@@ -278,3 +280,28 @@ def run(ctx, chk):
                                 else:
                                     chk.undecided_("C02.R7", unit + ":count-range", f"count value {cnt!r} outside the analysed 0..255")
                     report_aborts(chk, "C02.R7", unit, [e for e in I.events if "__action" in e.fn], where)
+
+
+def sibling_rule(ctx, chk):
+    """C02.R10 (siblings.py): the byte and word forms of every logic/shift/rotate helper are width-parametric copies.
+    Their fingerprints (branch conditions, arguments of the flag calls, returned expression; width constants normalised)
+    must be equal.  A fingerprint that is the other one with one operand left out, or with one operator / constant
+    changed, is a contradiction between the two: one of them is wrong.  Any larger difference is listed as undecided."""
+    import siblings as S
+    P = ctx.program
+    for m, d in sorted(S.sibling_pairs(P, "instructions::bit_manipulation").items()):
+        r = S.compare_fingerprints(S.fingerprint(d["byte"]), S.fingerprint(d["word"]))
+        where = d["word"]["span"].rsplit(":", 2)[0]
+        if r[0] == "same":
+            chk.ok("C02.R10", m, f"{r[1]} conditions/flag calls/result expressions agree")
+        elif r[0] == "dropped":
+            _, kind, opn, operand, side = r
+            who = "word" if side == "b" else "byte"
+            chk.violation("C02.R10", f"{m}.{who[0]}", f"{kind}-drops-operand:{operand}",
+                          f"{who}_{m}: a {kind} expression is the other width's with the operand `{operand}` of a {opn} left out: the two widths of `{m}` behave differently", where)
+        elif r[0] == "node":
+            _, kind, what, x, y = r
+            chk.violation("C02.R10", m, f"{kind}-{what}-differs:{x}/{y}",
+                          f"byte_{m} and word_{m} differ in exactly one {what} of a {kind} expression (byte: {x}, word: {y}) after width normalisation: one of the two is wrong", where)
+        else:
+            chk.undecided_("C02.R10", m, f"the two helpers are formulated differently ({r[1]} / {r[2]} unmatched expressions)")
